@@ -1174,12 +1174,23 @@ class Executor:
 
     def comprehension(self, elt: ast.expr, gens: List[ast.comprehension], st: State) -> List[Res]:
         """[elt for x in xs if c ...] -> LT (single generator; concrete lists are unrolled, list terms mapped)"""
-        if len(gens) != 1 or gens[0].is_async:
-            raise Unsupported("comprehension with several generators")
+        if any(g.is_async for g in gens):
+            raise Unsupported("async comprehension")
+        if len(gens) > 1:
+            # [e for x in xs for y in f(x) ...]  ==  concatenation of [[e for y in f(x) ...] for x in xs]
+            inner = ast.ListComp(elt=elt, generators=list(gens[1:]))
+            ast.copy_location(inner, elt)
+            ast.fix_missing_locations(inner)
+            out: List[Res] = []
+            for s, lt in self.comprehension(inner, [gens[0]], st):
+                out.append((s, lt) if isinstance(lt, Exc) else (s, self.flatten(s, lt)))
+            return out
         g = gens[0]
 
         def go(s: State, src) -> List[Res]:
             src_lt = self.iter_lt(s, src)
+            if not g.ifs and isinstance(elt, ast.Name) and isinstance(g.target, ast.Name) and elt.id == g.target.id:
+                return [(s, src_lt)]  # [x for x in xs]: a copy of the list (also of an opaque one)
             if src_lt.is_concrete():
                 results: List[Res] = [(s, L.LT([]))]
                 for item in src_lt.concrete_items():
